@@ -82,6 +82,10 @@ def evalStateless (tag : String) (a : List String) : Option (String × String) :
     -- does a frame of this total size pass the receive guard read from conn.Recv?
     let r := Wire.rejects Generated.connRecvGuard (natArg total) (natArg maxrx)
     some (if r then "lost" else "delivered", if r then "refused" else "fits")
+  | "dev.rt", [_, n, ttl, payload] =>
+    -- a chain of n devices is transparent while the connections crossed (n + 1) do not exceed the server's TTL
+    -- (Props.C09.deliver_iff along the chain); the test server answers "R:" ++ request
+    if natArg n + 1 ≤ natArg ttl then some (toHexD ([0x52, 0x3a] ++ hexArg payload), "delivered") else some ("lost", "over-ttl")
   | "opt.after", [_, _] => some ("received", "after")   -- a queue-length change never makes a connected peer's messages unreceivable
   | "mc.conflict", [_, k] => some (Macat.conflictVerdict (natArg k), "conflict")
   | "ws.enc", [h, b] =>
